@@ -329,6 +329,10 @@ def run(repo: Repo, rep):
     r6_no_alias(repo, rep)
     from .c15 import r1_static  # repeated evaluation with a static sampler returns the cached points
     r1_static(repo, rep)
+    from .c13 import r4_defaults_alignment  # every wrapper owns its defaults mapping (assigned per wrapper, never the constructor's shared default object)
+    r4_defaults_alignment(repo, rep)
+    from .c09 import r4_branch_cache  # conditions sharing one DeepONet: the branch features in use belong to the function set of the condition being evaluated
+    r4_branch_cache(repo, rep)
 
 
 _C = "src/torchphysics/problem/conditions/condition.py"
